@@ -33,3 +33,34 @@ Definition model_has (x : expr) (d : jv) : bytes := if has_spec x d then [x74] e
 
 Definition model_locate_ses (x : expr) (d : jv) : bytes :=
   join_semi (map (fun pc => show_npath (fst pc) ++ x20 :: x7c :: x20 :: show (canon (snd pc))) (locate_ses x d)).
+
+Require Import Ojg.Jp.Mutate.
+Open Scope Z_scope.
+
+(* modifiers used by the harness: 0 = replace by v, 1 = wrap the element in an array *)
+Definition modifier (k : Z) (v : jv) : jv -> jv :=
+  if k =? 0 then (fun _ => v) else (fun e => JArr [e]).
+
+(* op: 0 Set, 1 Del, 2 Remove, 3 Modify(const v), 4 Modify(wrap);
+   incl = false: the specification (slices as Get); incl = true: the known-finding variant *)
+Definition six_of (incl : bool) : Z -> list Z -> list Z := if incl then slice_indexes_incl else slice_indexes.
+
+Definition model_mutate (incl : bool) (op : Z) (x : expr) (d v : jv) : bytes :=
+  let six := six_of incl in
+  let comparable :=
+    if (op =? 0) || (op =? 1) then set_comparable six x d
+    else if op =? 2 then negb (overlapping (map fst (parents_of six x d)))
+    else negb (overlapping (map fst (locate_six six x d))) in
+  let r :=
+    if op =? 0 then set_spec six x v d
+    else if op =? 1 then del_spec six x d
+    else if op =? 2 then (if incl then remove_spec_elem_root six x d else remove_spec six x d)
+    else modify_spec six x (modifier (op - 3) v) d in
+  (if comparable then x63 else x75) :: x20 :: show (canon r).
+
+Definition model_mutate_one (incl : bool) (op : Z) (x : expr) (d v : jv) : bytes :=
+  let six := six_of incl in
+  let comparable :=
+    if (op =? 0) || (op =? 1) then set_comparable six x d else true in
+  (if comparable then x63 else x75) :: x20 ::
+  join_semi (map (fun r => show (canon r)) (one_candidates six (if 3 <=? op then 3 else op) x v (modifier (op - 3) v) d)).
